@@ -168,11 +168,10 @@ impl FsmExecutor {
 
     /// Shutdown of all FSMs and IO-Processors.
     pub fn shutdown(&mut self) {
-        let mut guard = self.state.lock().unwrap();
-        while !guard.processors.is_empty() {
-            if let Some(pp) = guard.processors.pop() {
-                pp.lock().unwrap().shutdown();
-            }
+        // Take the processors out and release the executor state first (see lock order in fsm::start_fsm...).
+        let mut processors = std::mem::take(&mut self.state.lock().unwrap().processors);
+        while let Some(pp) = processors.pop() {
+            pp.lock().unwrap().shutdown();
         }
     }
 
